@@ -261,6 +261,7 @@ func main() {
 	declare("optSecureIncludesForceHTTPS", "Bool", "false")
 	declare("saveAssignsOptionsToAll", "Bool", "false")
 	declare("securecookieMaxLen", "Nat", "0")
+	declare("cookieValueCeiling", "Nat", "0") // the ceiling on an encoded cookie value: the argument of the codecs' MaxLength call in NewSessionManager, else the library default; 0 = none
 	declare("securecookieMaxAgeSec", "Int", "0")
 	declare("blacklistDurationSec", "Int", "0")
 	declare("maxIncomingPathLength", "Nat", "0")
@@ -353,6 +354,10 @@ func main() {
 				case "maxCookieSize", "minEncryptionKeyLength", "maxIncomingPathLength":
 					if v, ok := evalInt(val); ok && v >= 0 {
 						set(id.Name, strconv.FormatInt(v, 10), id, src(val))
+						consts[id.Name] = v
+					}
+				case "maxCookieValueLength":
+					if v, ok := evalInt(val); ok && v >= 0 {
 						consts[id.Name] = v
 					}
 				case "DefaultMaxSize":
@@ -644,6 +649,10 @@ func main() {
 					a0, a1 := src(x.Args[0]), src(x.Args[1])
 					set("limiterRateIsConfigPerSecond", strconv.FormatBool(a0 == "rate.Limit(config.RateLimit)"), x, a0)
 					set("limiterBurstIsConfig", strconv.FormatBool(a1 == "config.RateLimit"), x, a1)
+				case name == "NewSessionManager" && strings.HasSuffix(fun, ".MaxLength") && len(x.Args) == 1:
+					if v, ok := evalInt(x.Args[0]); ok && v >= 0 {
+						set("cookieValueCeiling", strconv.FormatInt(v, 10), x, src(x))
+					}
 				case fun == "sessions.NewCookieStore":
 					// the second argument (block key) must be a non-nil expression
 					nn := 0
@@ -1291,6 +1300,13 @@ func main() {
 			})
 			return false
 		})
+	}
+
+	// no MaxLength call in NewSessionManager: the library's default ceiling applies
+	if !facts["cookieValueCeiling"].Found && facts["securecookieMaxLen"].Found {
+		d := facts["securecookieMaxLen"]
+		c := facts["cookieValueCeiling"]
+		c.Lean, c.Pos, c.Raw, c.Found = d.Lean, d.Pos, "library default: "+d.Raw, true
 	}
 
 	// ---- output
